@@ -88,6 +88,33 @@ theorem inv_spawn (y : G) (rid data : Nat) (h : Chain.Inv (proj y)) :
     simp [Chain.step, Chain.spawnSlot, Chain.newInst, proj, projI, projSt]
   exact Chain.step_inv _ _ _ h hs
 
+/-- spawn under a root context that is already cancelled: the new instance's context is cancelled -/
+theorem inv_spawnC (y : G) (rid data : Nat) (c : Bool) (h : Chain.Inv (proj y)) :
+    Chain.Inv (proj { y with insts := y.insts ++ [{ rid := rid, data := data, waitOn := y.last, cancelled := c }],
+                             last := some y.insts.length }) := by
+  cases c with
+  | false => exact inv_spawn y rid data h
+  | true =>
+    have h1 := inv_cancel { y with insts := y.insts ++ [{ rid := rid, data := data, waitOn := y.last }],
+                                   last := some y.insts.length } y.insts.length (inv_spawn y rid data h)
+    have e : (y.insts ++ [({ rid := rid, data := data, waitOn := y.last } : Inst)]).modify y.insts.length
+        (fun x => { x with cancelled := true }) =
+        y.insts ++ [{ rid := rid, data := data, waitOn := y.last, cancelled := true }] := by
+      apply List.ext_getElem?
+      intro j
+      simp only [List.getElem?_modify]
+      by_cases hj : j < y.insts.length
+      · have hne : y.insts.length ≠ j := by omega
+        simp [hne, List.getElem?_append_left hj]
+      · by_cases hje : j = y.insts.length
+        · subst hje; simp
+        · have h2 : y.insts.length + 1 ≤ j := by omega
+          have hne : y.insts.length ≠ j := fun e => hje e.symm
+          simp [hne, List.getElem?_eq_none, h2]
+    simp only [] at h1
+    rw [e] at h1
+    exact h1
+
 /-- proceed: waiting → entered -/
 theorem inv_proceed (y : G) (i : Nat) (x : Inst) (hx : y.insts[i]? = some x) (h : Chain.Inv (proj y))
     (hw : x.st = .waiting) (hc : chClosed y x.waitOn = true) :
